@@ -55,6 +55,19 @@ type EvLog = Arc<Mutex<Vec<(ActorId, bool, String, String, Vec<ActorId>)>>>;
 /// Test actor: logs every process-group notification it receives.
 struct PA {
     log: EvLog,
+    /// `post_stop` waits at the gate when asked to: the actor is parked in `Stopping`
+    hold: Arc<std::sync::atomic::AtomicBool>,
+    gate: Arc<tokio::sync::Notify>,
+}
+
+type Gate = (Arc<std::sync::atomic::AtomicBool>, Arc<tokio::sync::Notify>);
+
+impl PA {
+    fn new(log: EvLog) -> (PA, Gate) {
+        let hold = Arc::new(std::sync::atomic::AtomicBool::new(false));
+        let gate = Arc::new(tokio::sync::Notify::new());
+        (PA { log, hold: hold.clone(), gate: gate.clone() }, (hold, gate))
+    }
 }
 
 impl Actor for PA {
@@ -62,6 +75,12 @@ impl Actor for PA {
     type State = ();
     type Arguments = ();
     async fn pre_start(&self, _: ActorRef<()>, _: ()) -> Result<(), ActorProcessingErr> {
+        Ok(())
+    }
+    async fn post_stop(&self, _: ActorRef<()>, _: &mut ()) -> Result<(), ActorProcessingErr> {
+        if self.hold.load(std::sync::atomic::Ordering::SeqCst) {
+            self.gate.notified().await;
+        }
         Ok(())
     }
     async fn handle_supervisor_evt(
@@ -88,6 +107,10 @@ struct World {
     evlog: EvLog,
     #[allow(dead_code)]
     sup: Option<ActorCell>,
+    gates: BTreeMap<u64, Gate>,
+    /// every actor that was ever seen `≥ Stopping`: status words must never move backwards, and a
+    /// stopping actor must never be admitted again
+    ever_dead: Mutex<std::collections::BTreeSet<u64>>,
 }
 
 fn plus(v: &[u64]) -> String {
@@ -198,12 +221,15 @@ impl World {
             })
             .collect();
         r.sort();
-        let dead: Vec<u64> = self
-            .cells
-            .iter()
-            .filter(|(_, c)| c.get_status() >= ActorStatus::Stopping)
-            .map(|(k, _)| *k)
-            .collect();
+        let dead: Vec<u64> = {
+            let mut ever = self.ever_dead.lock().unwrap();
+            for (k, c) in self.cells.iter() {
+                if c.get_status() >= ActorStatus::Stopping {
+                    ever.insert(*k);
+                }
+            }
+            ever.iter().filter(|k| self.cells.contains_key(k)).cloned().collect()
+        };
         format!(
             "map={} idx={} world={} rel={} dead={}",
             semi(m.into_iter().map(|x| x.1).collect()),
@@ -319,6 +345,16 @@ fn apply_pg(cells: &BTreeMap<u64, ActorCell>, t: &[&str]) -> bool {
             }
             true
         }
+        ["drain", a] => {
+            // only the LATE drain is of interest here (a drain of a live actor is an exit of its own);
+            // statuses only grow, so once Stopping has been seen the call below is a late one
+            if let Some(c) = a.parse().ok().and_then(|a: u64| cells.get(&a).cloned()) {
+                if c.get_status() >= ActorStatus::Stopping {
+                    let _ = c.drain();
+                }
+            }
+            true
+        }
         ["demonitorscope", s, a] => {
             if let Some(c) = a.parse().ok().and_then(|a: u64| cells.get(&a).cloned()) {
                 pg::demonitor_scope(scope_name(s.parse().unwrap_or(1)), c.get_id());
@@ -333,6 +369,10 @@ async fn exec(w: &mut World, log: &mut Log, st: &mut Stats, line: &str, cluster:
     let t: Vec<&str> = line.split_whitespace().collect();
     match t.as_slice() {
         ["case", ..] => {
+            for (h, g) in w.gates.values() {
+                h.store(false, std::sync::atomic::Ordering::SeqCst);
+                g.notify_one();
+            }
             for c in w.cells.values() {
                 c.kill();
             }
@@ -349,8 +389,12 @@ async fn exec(w: &mut World, log: &mut Log, st: &mut Stats, line: &str, cluster:
                 if !w.cells.contains_key(&k) {
                     if *kind == "R" {
                         spawn_remote(w, k, cluster).await;
-                    } else if let Ok((a, _)) = Actor::spawn(None, PA { log: w.evlog.clone() }, ()).await {
-                        w.cells.insert(k, a.get_cell());
+                    } else {
+                        let (pa, gate) = PA::new(w.evlog.clone());
+                        if let Ok((a, _)) = Actor::spawn(None, pa, ()).await {
+                            w.cells.insert(k, a.get_cell());
+                            w.gates.insert(k, gate);
+                        }
                     }
                     quiesce().await;
                     st.bump(if *kind == "R" { "actor_remote" } else { "actor_local" });
@@ -366,6 +410,42 @@ async fn exec(w: &mut World, log: &mut Log, st: &mut Stats, line: &str, cluster:
                 }
                 quiesce().await;
                 st.bump("exit");
+            }
+        }
+        // park an actor in `post_stop`: status Stopping, automatic leave done, task still alive
+        ["hold", a] => {
+            if let Some(c) = a.parse().ok().and_then(|a: u64| w.cells.get(&a).cloned()) {
+                let k: u64 = a.parse().unwrap_or(0);
+                if c.get_status() < ActorStatus::Stopping {
+                    if let Some((h, _)) = w.gates.get(&k) {
+                        h.store(true, std::sync::atomic::Ordering::SeqCst);
+                    }
+                }
+                c.stop(None);
+                quiesce().await;
+                st.bump("hold");
+            }
+        }
+        ["release", a] => {
+            if let Some((h, g)) = a.parse().ok().and_then(|a: u64| w.gates.get(&a)) {
+                h.store(false, std::sync::atomic::Ordering::SeqCst);
+                g.notify_one();
+                quiesce().await;
+                st.bump("release");
+            }
+        }
+        // a call through a stale reference to an actor that is already stopping
+        ["late", a, how] => {
+            if let Some(c) = a.parse().ok().and_then(|a: u64| w.cells.get(&a).cloned()) {
+                if c.get_status() >= ActorStatus::Stopping {
+                    if *how == "drain" {
+                        let _ = c.drain();
+                    } else {
+                        c.stop(None);
+                    }
+                    quiesce().await;
+                    st.bump(&format!("late_{how}"));
+                }
             }
         }
         // an actor that is Draining (status 4 < Stopping) is still a legitimate member/monitor:
@@ -419,13 +499,13 @@ async fn spawn_remote(_w: &mut World, _k: u64, _cluster: bool) {}
 async fn spawn_remote(w: &mut World, k: u64, _cluster: bool) {
     if w.sup.is_none() {
         // a supervisor outside the model: it joins no group and monitors nothing
-        if let Ok((s, _)) = Actor::spawn(None, PA { log: Arc::new(Mutex::new(Vec::new())) }, ()).await {
+        if let Ok((s, _)) = Actor::spawn(None, PA::new(Arc::new(Mutex::new(Vec::new()))).0, ()).await {
             w.sup = Some(s.get_cell());
         }
     }
     let Some(sup) = w.sup.clone() else { return };
     let id = ActorId::Remote { node_id: 9, pid: 5000 + k };
-    if let Ok((a, _)) = ractor::ActorRuntime::spawn_linked_remote(None, PA { log: w.evlog.clone() }, id, (), sup).await {
+    if let Ok((a, _)) = ractor::ActorRuntime::spawn_linked_remote(None, PA::new(w.evlog.clone()).0, id, (), sup).await {
         w.cells.insert(k, a.get_cell());
         w.remote.push(k);
     }
@@ -459,7 +539,20 @@ async fn gen_case(w: &mut World, log: &mut Log, st: &mut Stats, rng: &mut Rng, c
         let s = rng.range(1, n_scopes);
         let g = rng.below(n_groups);
         let c = rng.below(100);
-        let line = if c < 30 {
+        let held: Vec<u64> = w.cells.iter().filter(|(_, c)| c.get_status() == ActorStatus::Stopping).map(|(k, _)| *k).collect();
+        let line = if c < 6 && !held.is_empty() {
+            // somebody still holds a reference to an actor that sits in post_stop
+            let k = *rng.pick(&held);
+            match rng.below(6) {
+                0 | 1 => format!("late {k} drain"),
+                2 => format!("late {k} stop"),
+                3 => format!("join {s} {g} {k},{}", rng.below(next)),
+                4 => format!("monitor {g} {k}"),
+                _ => format!("release {k}"),
+            }
+        } else if c < 9 {
+            format!("hold {}", rng.below(next))
+        } else if c < 30 {
             format!("join {s} {g} {}", pick_actors(rng, next, 3))
         } else if c < 48 {
             format!("leave {s} {g} {}", pick_actors(rng, next, 2))
@@ -601,7 +694,7 @@ mod thr {
         rt.block_on(async {
             let mut cells = BTreeMap::new();
             for k in 0..n_actors {
-                if let Ok((a, _)) = Actor::spawn(None, PA { log: evlog.clone() }, ()).await {
+                if let Ok((a, _)) = Actor::spawn(None, PA::new(evlog.clone()).0, ()).await {
                     cells.insert(k, a.get_cell());
                 }
             }
@@ -747,7 +840,8 @@ mod thr {
                 let s = rng.range(1, 2);
                 let by = rng.range(1, 2); // a bystander
                 prog.push(match c {
-                    0..=2 => format!("join {s} {g} {}", *rng.pick(&["0", "0,1", "1,0", "0,0"])),
+                    0 | 1 => format!("join {s} {g} {}", *rng.pick(&["0", "0,1", "1,0", "0,0"])),
+                    2 => "drain 0".to_string(),
                     3 | 4 => format!("monitor {g} 0"),
                     5 => format!("monitorscope {} 0", rng.range(0, 2)),
                     6 => format!("leave {s} {g} {}", *rng.pick(&["0", "0,1"])),
@@ -759,6 +853,11 @@ mod thr {
                     14 => format!("demonitorscope {} {by}", rng.range(0, 2)),
                     _ => format!("leave {s} {g} {}", *rng.pick(&["1", "2"])),
                 });
+            }
+            if rng.chance(1, 4) {
+                // the late-drain window: drain the exiter through a stale reference, then name it in a join
+                prog.push("drain 0".to_string());
+                prog.push(format!("join {} {} 0", rng.range(1, 2), rng.below(2)));
             }
             let _ = r;
             progs.push(prog);
@@ -847,7 +946,7 @@ mod thr {
                 return;
             }
         };
-        let mut w = World { cells: cells.clone(), remote: vec![], evlog: evlog.clone(), sup: None };
+        let mut w = World { cells: cells.clone(), evlog: evlog.clone(), ..World::default() };
         // the setup is ordinary API-level history: log it as such
         log.rec(format!("thrcase {seed}"), format!("ev=- {} {}", "map=- idx=- world=- rel=- dead=-", "gm=- lm=- wg=- ws=- wsg=- wsag=-"));
         st.bump("thr_cases");
@@ -917,6 +1016,7 @@ mod thr {
         let mut last: Option<usize> = None;
         let mut a_done = false;
         let mut waited_logged = false;
+        let mut x_ever_dead = false;
         let mut steps = 0u64;
         loop {
             let mut parked: Vec<(usize, &'static str)> = Vec::new();
@@ -969,7 +1069,9 @@ mod thr {
             };
             let (tid, point) = parked[pick];
             last = Some(tid);
-            let x_dead_before = x.get_status() >= ActorStatus::Stopping;
+            // sticky: a status word that moves backwards does not make the actor alive again
+            x_ever_dead |= x.get_status() >= ActorStatus::Stopping;
+            let x_dead_before = x_ever_dead;
             let members_before = member_keys(&x);
             let listeners_before = listener_keys(&x);
             let line = curs[tid].lock().unwrap().clone();
@@ -1014,7 +1116,10 @@ mod thr {
                     semi(wd.into_iter().map(|x| x.1).collect())
                 };
                 match point {
-                    "status.publish" if !x_dead_before && x.get_status() >= ActorStatus::Stopping => Some(format!("dead {exiter}")),
+                    "status.publish" if !x_dead_before && x.get_status() >= ActorStatus::Stopping => {
+                        x_ever_dead = true;
+                        Some(format!("dead {exiter}"))
+                    }
                     "status.pg_demonitor" => Some(format!("demontake {exiter}")),
                     "pg.demonitor_all.key" => {
                         let after = listener_keys(&x);
@@ -1057,12 +1162,25 @@ mod thr {
                     ("pg.monitor.relations", "monitor") => Some(line.clone()),
                     ("pg.monitor_scope.relations", "monitorscope") => Some(line.clone()),
                     ("h.act", "leave") | ("h.act", "demonitor") | ("h.act", "demonitorscope") => Some(line.clone()),
+                    ("drain.status", "drain") => Some(line.clone()),
                     ("pg.monitor.recheck", "monitor") => Some(line.replacen("monitor", "monrecheck", 1)),
                     ("pg.monitor_scope.recheck", "monitorscope") => Some(line.replacen("monitorscope", "monscoperecheck", 1)),
                     ("pg.join.entered", "join") => Some(format!("joincleanup {} {} {}", lw[1], lw[2], lw.get(3).copied().unwrap_or("-"))),
                     _ => None,
                 }
             };
+            // a stopping actor must never be admitted again: no new membership / listener entry of the
+            // exiter may appear once it has been seen `≥ Stopping`
+            if x_dead_before {
+                let (mk_after, lk_after) = (member_keys(&x), listener_keys(&x));
+                let readded = mk_after.iter().any(|k| !members_before.contains(k))
+                    || lk_after.0.iter().any(|k| !listeners_before.0.contains(k))
+                    || lk_after.1.iter().any(|k| !listeners_before.1.contains(k));
+                if readded {
+                    st.bump("thr_readded");
+                    log.rec(format!("t:readded {exiter}"), "readded=1");
+                }
+            }
             match op {
                 Some(o) => {
                     st.bump(&format!("thr_{}", o.split_whitespace().next().unwrap_or("")));
